@@ -250,7 +250,8 @@ func (en *Engine) finish(e *Exec, fc *FuncContract, res *UnitResult) {
 	}
 	for _, d := range e.decls {
 		if f := strings.Fields(d); len(f) > 1 && (f[0] == "(declare-fun" || f[0] == "(define-fun-rec" || f[0] == "(declare-const" || f[0] == "(define-fun") {
-			if strings.Contains(e.preludeText, f[0]+" "+f[1]+" ") || f[1] == "nextRef0" {
+			if strings.Contains(e.preludeText, f[0]+" "+f[1]+" ") || f[1] == "nextRef0" ||
+				strings.Contains(e.preludeText, "(declare-fun "+f[1]+" ") || strings.Contains(e.preludeText, "(define-fun-rec "+f[1]+" ") || strings.Contains(e.preludeText, "(define-fun "+f[1]+" ") {
 				continue
 			}
 		}
